@@ -1,4 +1,6 @@
-import PsV.Proofs.GlamNdFlat
+import PsV.Proofs.Glam
+import PsV.Proofs.FitQuad
+import PsV.Proofs.FitDiffs
 /-!
 # C09: coefficient vectors of tensor-product form
 
@@ -29,6 +31,21 @@ def dimSums : List (Dim α) → List (Nat → α) → α
   | _, _ => 0
 
 /-! ## index arithmetic -/
+
+theorem rowMajor_stride_head (d : Dim α) (ds : List (Dim α)) (hs : StridesRowMajor (d :: ds)) :
+    d.stride = natProd (ds.map (·.naxes)) := by
+  induction ds generalizing d with
+  | nil => exact hs
+  | cons d' ds ih =>
+    obtain ⟨h1, h2⟩ := hs
+    rw [h1, ih d' h2]
+    simp [natProd, Nat.mul_comm]
+
+theorem rowMajor_tail (d : Dim α) (ds : List (Dim α)) (hs : StridesRowMajor (d :: ds)) :
+    StridesRowMajor ds := by
+  cases ds with
+  | nil => trivial
+  | cons d' ds' => exact hs.2
 
 /-- adding a multiple of `S` does not change the component of a dimension whose block `s'·n'` divides `S` -/
 theorem comp_shift (s' n' q S x b : Nat) (hS : S = s' * n' * q) (hb : b < S) :
@@ -117,10 +134,10 @@ theorem sum_compProd (ds : List (Dim α)) (hs : List (Nat → α)) (hst : Stride
     cases hs with
     | nil => simp [compProd, dimSums]
     | cons h hs =>
-      have hstr := ndFlat_stride_eq_natProd d ds hst
+      have hstr := rowMajor_stride_head d ds hst
       have hdiv := later_blocks_divide d ds hst
       simp only [List.map_cons, natProd, dimSums]
-      rw [sum_range_mul', ← ih hs (ndFlat_strides_tail d ds hst), sum_mul]
+      rw [sum_range_mul', ← ih hs (rowMajor_tail d ds hst), sum_mul]
       refine sum_congr rfl (fun k hk => ?_)
       rw [mul_sum]
       refine sum_congr rfl (fun i' hi' => ?_)
@@ -168,7 +185,7 @@ theorem derivVanishes_compProd_aux (ds : List (Dim α)) (hs : List (Nat → α))
               = fun i => (fun _ => (0 : α)) i * compProd ds ([] : List (Nat → α)) i := by
             funext i; simp [compProd]
           rw [hz]
-          refine ih [] ps (ndFlat_strides_tail d ds hst) (fun _ => 0) (fun d' _ => fun _ _ _ _ _ => rfl) ?_
+          refine ih [] ps (rowMajor_tail d ds hst) (fun _ => 0) (fun d' _ => fun _ _ _ _ _ => rfl) ?_
           cases ds <;> trivial
       | cons h hs =>
         obtain ⟨hv1, hv2⟩ := hv
@@ -191,7 +208,7 @@ theorem derivVanishes_compProd_aux (ds : List (Dim α)) (hs : List (Nat → α))
               = fun i => (E i * h ((i / d.stride) % d.naxes)) * compProd ds hs i := by
             funext i; simp only [compProd]; ring
           rw [hz]
-          refine ih hs ps (ndFlat_strides_tail d ds hst) _ (fun d' hd' => ?_) hv2
+          refine ih hs ps (rowMajor_tail d ds hst) _ (fun d' hd' => ?_) hv2
           obtain ⟨q, hq⟩ := hdiv d' hd'
           have h1 := hE d' (by simp [hd'])
           have h2 := earlier_comp_indep d d' q hq
